@@ -13,7 +13,7 @@ FIRST = {
     "S13-lsf-slack-uses-static-runtime": ("missed", "C13 now also draws preemptive EDF/LSF: running tasks with elapsed time compete again, so remaining time differs from the static runtime"),
     "S19-closed-loop-followups-lose-flags": ("missed", "C19 workload_roundtrip now drives closed loops through Workload.notify_task_graph_completion and judges the follow-up invocations like the initial ones"),
     "S02b-zero-remaining-parents-skip-readiness": ("missed", "scripted worlds of C02/C03 now contain zero-runtime strategies (a parent with zero remaining time that has not completed)"),
-    "S05b-zero-deferral-for-zero-remaining-parent": ("missed (the spinning cases ran into the per-case watchdog and were counted inconclusive)", "new livelock detector: 400 events handled at one clock value with no task or ledger change; C05 gained scripted_termination with zero-runtime tasks"),
+    "S05b-zero-deferral-for-zero-remaining-parent": ("missed (no detector for an event that is re-queued at its own timestamp forever)", "new livelock detector: 400 events handled at one clock value with no task or ledger change; C05 gained scripted_termination with zero-runtime tasks"),
     "S08b-scheduler-start-count-ignores-retraction": ("missed", "C08 gained scripted_trace (retracting plan-ahead policy whose attributes match the offers it asks for)"),
     "S17b-stale-topological-order-cache": ("missed", "C17 gained graph_history: all clauses re-asked after every add_node/add_child/remove on one Graph object"),
     "S01b-reload-profile-skips-booking": ("missed", None),
